@@ -114,7 +114,9 @@ Proof.
 Qed.
 
 (* Not reached by proof (reported as open statements in the evidence): array
-   forms (excluded from the validator: known finding C07-array-degree), joins
+   forms (excluded from the validator; since /repo 920512c their degree is the join
+   over the indices and every earlier element, exercised by the mirror
+   correspondence and the finite-difference oracle only), joins
    under signal-dependent control (outside the step relation: known finding
    C07-ctl-merge), and a universal theorem that Model.Propagate's degree passes
    always produce a graph accepted by djust_cfg (established per explored
